@@ -1,1 +1,886 @@
-fn main() {}
+//! C09 — circuit structure never depends on witness or instance values.
+
+mod fam;
+mod native;
+mod oracle;
+mod scratch;
+mod selftest;
+
+use ff::Field;
+use midnight_zk_stdlib::ZkStdLibArch;
+use num_bigint::BigUint;
+use num_traits::One;
+use native::{NOp, Op, Ty, V};
+use oracle::{check_op, Cfg, OpDef, Subject, Wit, F};
+use serde_json::json;
+use vcore::{CaseOut, Ctx, Level, Tier};
+use vgad::val::*;
+
+type Job = Box<dyn Fn(&Cfg) -> CaseOut + Send + Sync>;
+
+fn job<O: Subject>(op: O, wits: Vec<Wit<O::W>>, show: fn(&O::W) -> String) -> (String, Job) {
+    let key = op.key();
+    job_keyed(key, op, wits, show)
+}
+
+fn job_keyed<O: Subject>(key: String, op: O, wits: Vec<Wit<O::W>>, show: fn(&O::W) -> String) -> (String, Job) {
+    (
+        key,
+        Box::new(move |cfg: &Cfg| {
+            let mut out = CaseOut::batch();
+            let rep = check_op(&op, &wits, &show, cfg, &mut out);
+            out.counter("operations", 1);
+            if let Some(k) = rep.k {
+                out.counter(&format!("circuits_with_k={k:02}"), 1);
+            }
+            out.counter("witnesses_compared", rep.compared);
+            if rep.proof_done {
+                out.counter("real_proofs", 1);
+            }
+            out
+        }),
+    )
+}
+
+/// Keeps at most `n` witnesses, spread over the list, always with one in-domain member.
+fn thin<W: Clone>(w: Vec<Wit<W>>, n: usize) -> Vec<Wit<W>> {
+    if w.len() <= n {
+        return w;
+    }
+    let mut idx: Vec<usize> = (0..n).map(|i| i * (w.len() - 1) / (n - 1)).collect();
+    idx.dedup();
+    if !idx.iter().any(|i| w[*i].in_domain) {
+        if let Some(j) = w.iter().position(|x| x.in_domain) {
+            idx.push(j);
+        }
+    }
+    idx.into_iter().map(|i| w[i].clone()).collect()
+}
+
+// ---------------------------------------------------------------------------------------------
+// native registry (operation list and alphabets as in C04)
+// ---------------------------------------------------------------------------------------------
+
+fn arch(cols: u8) -> ZkStdLibArch {
+    ZkStdLibArch {
+        nr_pow2range_cols: cols,
+        ..ZkStdLibArch::default()
+    }
+}
+
+fn op_list(tier: Tier, seed: u64) -> Vec<Op> {
+    use Op::*;
+    let mut rng = vcore::rng_for(seed, "c04-consts");
+    let c1 = F::random(&mut rng);
+    let c2 = F::random(&mut rng);
+    let p = modulus();
+    let mut v = vec![
+        Add, Sub, Mul(None), Mul(Some(c1)), Mul(Some(F::ZERO)), Neg, Square, Pow(0), Pow(1), Pow(2), Pow(5), Pow(64),
+        AddConst(c1), AddConst(F::ZERO), AddConst(-F::ONE), MulConst(c2), MulConst(F::ZERO), MulConst(F::ONE), MulConst(-F::ONE),
+        AddAndMul(c1, c2, F::ONE, c1, c2), AddAndMul(F::ZERO, F::ZERO, F::ZERO, F::ZERO, F::ONE),
+        Inv, Inv0, Div, IsZero, AssertZero, AssertNonZero, IsEqual, IsNotEqual,
+        IsEqualToFixed(c1), IsEqualToFixed(F::ZERO), IsNotEqualToFixed(c1), IsNotEqualToFixed(F::ZERO),
+        AssertEqual, AssertNotEqual, AssertEqualToFixed(c1), AssertNotEqualToFixed(c1),
+        BitIsEqual, BitAssertEqual, BitAssertNotEqual, Not,
+        Sgn0, Select, SelectBit, CondSwap, CondAssertEqual, BitToNative, ByteToNative, NativeToBit, NativeToByte,
+    ];
+    for n in 1..=7usize {
+        let cs: Vec<F> = (0..n).map(|i| if i == 0 { c1 } else if i % 3 == 0 { F::ZERO } else { F::from(i as u64 + 1) }).collect();
+        v.push(LinComb(cs, if n % 2 == 0 { F::ZERO } else { c2 }));
+    }
+    for n in 1..=5usize {
+        v.push(And(n));
+        v.push(Or(n));
+        v.push(Xor(n));
+    }
+    for k in [1usize, 8, 9, 64] {
+        v.push(Band(k));
+        v.push(Bor(k));
+        v.push(Bxor(k));
+        v.push(Bnot(k));
+    }
+    for n in [1usize, 8, 254, 255] {
+        v.push(IsCanonical(n));
+    }
+    for (n, bound) in [
+        (8usize, BigUint::from(0u32)),
+        (8, BigUint::from(1u32)),
+        (8, BigUint::from(200u32)),
+        (8, BigUint::from(255u32)),
+        (8, BigUint::from(256u32)),
+        (255, &p - 1u32),
+        (255, p.clone()),
+        (64, BigUint::one() << 63),
+    ] {
+        v.push(LeBitsLowerThan(n, bound.clone()));
+        v.push(LeBitsGeqThan(n, bound));
+    }
+    for nb in [None, Some(1usize), Some(8), Some(64), Some(254), Some(255)] {
+        for canon in [false, true] {
+            v.push(ToLeBits(nb, canon));
+        }
+    }
+    v.push(ToBeBits(Some(8), true));
+    v.push(ToBeBits(None, true));
+    for nb in [None, Some(1usize), Some(2), Some(8), Some(31), Some(32)] {
+        v.push(ToLeBytes(nb));
+    }
+    v.push(ToBeBytes(Some(4)));
+    v.push(ToBeBytes(None));
+    for (bits, nc) in [(1usize, Some(8usize)), (4, Some(2)), (8, Some(4)), (8, None), (16, Some(3)), (7, Some(5)), (64, Some(2)), (100, None)] {
+        v.push(ToLeChunks(bits, nc));
+    }
+    for n in [1usize, 8, 64, 254, 255] {
+        v.push(FromLeBits(n));
+    }
+    v.push(FromBeBits(9));
+    for n in [1usize, 4, 31, 32] {
+        v.push(FromLeBytes(n));
+    }
+    v.push(FromBeBytes(5));
+    for bound in [BigUint::from(1u32), BigUint::from(2u32), BigUint::from(255u32), BigUint::from(256u32), BigUint::from(1000u32), BigUint::one() << 64, (BigUint::one() << 64) + 1u32, &p - 1u32, p.clone()] {
+        v.push(AssertLowerThanFixed(bound.clone()));
+        v.push(AssignLowerThanFixed(bound));
+    }
+    for k in [1u32, 8, 64, 126] {
+        v.push(LowerThan(k));
+    }
+    for (d, bound) in [
+        (BigUint::from(1u32), None),
+        (BigUint::from(2u32), None),
+        (BigUint::from(5u32), None),
+        (BigUint::from(256u32), Some(BigUint::from(65535u32))),
+        (BigUint::one() << 64, None),
+        (BigUint::from(7u32), Some(BigUint::from(100u32))),
+        (&p - 1u32, None),
+    ] {
+        v.push(DivRem(d.clone(), bound.clone()));
+        v.push(Rem(d, bound));
+    }
+    if tier.is_thorough() {
+        v.push(Pow(255));
+        v.push(Pow(u64::MAX));
+    }
+    v
+}
+
+fn op_ks(op: &Op) -> Vec<u32> {
+    use Op::*;
+    match op {
+        Band(k) | Bor(k) | Bxor(k) | Bnot(k) => vec![*k as u32],
+        ToLeBits(Some(k), _) | ToBeBits(Some(k), _) => vec![*k as u32],
+        ToLeBytes(Some(k)) | ToBeBytes(Some(k)) => vec![8 * *k as u32],
+        ToLeChunks(b, Some(n)) => vec![(*b * *n) as u32],
+        AssertLowerThanFixed(b) | AssignLowerThanFixed(b) => vec![b.bits() as u32, (b.bits() as u32).saturating_sub(1)],
+        LowerThan(k) => vec![*k],
+        NativeToBit => vec![1],
+        NativeToByte => vec![8],
+        DivRem(d, b) | Rem(d, b) => {
+            let mut v = vec![d.bits() as u32];
+            if let Some(b) = b {
+                v.push(b.bits() as u32)
+            }
+            v
+        }
+        _ => vec![64],
+    }
+}
+
+/// Input tuples for an operation (C04's alphabets): the cartesian product of per-position
+/// alphabets (thorough, arity <= 2) or diagonals through them.
+fn inputs_for(op: &Op, tier: Tier, seed: u64) -> Vec<Vec<V>> {
+    use Op::*;
+    let tys = op.in_types();
+    let p = modulus();
+    let long_bits = |n: usize| -> Vec<Vec<V>> {
+        let mut vals: Vec<BigUint> = vec![BigUint::from(0u32), BigUint::from(1u32), (BigUint::one() << n) - 1u32];
+        if n >= 254 {
+            vals.extend([&p - 1u32, p.clone(), &p + 1u32, &p - 2u32]);
+        }
+        if let LeBitsLowerThan(_, b) | LeBitsGeqThan(_, b) = op {
+            vals.extend([b.clone(), b + 1u32, if b > &BigUint::from(0u32) { b - 1u32 } else { BigUint::from(0u32) }]);
+        }
+        let mut rng = vcore::rng_for(seed, &format!("c04-bits-{n}"));
+        vals.push(vcore::big::random_below(&mut rng, &(BigUint::one() << n)));
+        vals.sort();
+        vals.dedup();
+        vals.into_iter()
+            .filter(|v| v.bits() as usize <= n)
+            .map(|v| (0..n).map(|i| V::B(v.bit(i as u64))).collect())
+            .collect()
+    };
+    match op {
+        IsCanonical(n) | LeBitsLowerThan(n, _) | LeBitsGeqThan(n, _) | FromLeBits(n) | FromBeBits(n) if *n > 5 => return long_bits(*n),
+        FromLeBytes(n) | FromBeBytes(n) => {
+            let mut out = vec![vec![V::Y(0); *n], vec![V::Y(255); *n]];
+            out.push((0..*n).map(|i| V::Y((i * 37 + 1) as u8)).collect());
+            if *n == 32 {
+                for v in [&p - 1u32, p.clone()] {
+                    let mut b = v.to_bytes_le();
+                    b.resize(32, 0);
+                    out.push(b.into_iter().map(V::Y).collect());
+                }
+            }
+            return out;
+        }
+        _ => {}
+    }
+    let alph_n: Vec<V> = native_alphabet(&op_ks(op), 2, seed, "c04-native").into_iter().map(|(_, v)| V::N(v)).collect();
+    let alph_b = vec![V::B(false), V::B(true)];
+    let alph_y: Vec<V> = [0u8, 1, 127, 128, 255, 0x5a].into_iter().map(V::Y).collect();
+    let alph = |t: &Ty| match t {
+        Ty::N => alph_n.clone(),
+        Ty::B => alph_b.clone(),
+        Ty::Y => alph_y.clone(),
+    };
+    let per_pos: Vec<Vec<V>> = tys.iter().map(alph).collect();
+    let n_native = tys.iter().filter(|t| **t == Ty::N).count();
+    let full = tier.is_thorough() && n_native <= 2 || tys.iter().all(|t| *t == Ty::B);
+    let mut out: Vec<Vec<V>> = vec![];
+    if full {
+        let mut idx = vec![0usize; per_pos.len()];
+        loop {
+            out.push(idx.iter().enumerate().map(|(i, j)| per_pos[i][*j].clone()).collect());
+            let mut i = 0;
+            loop {
+                if i == idx.len() {
+                    return out;
+                }
+                idx[i] += 1;
+                if idx[i] < per_pos[i].len() {
+                    break;
+                }
+                idx[i] = 0;
+                i += 1;
+            }
+        }
+    }
+    let m = per_pos.iter().map(|a| a.len()).max().unwrap_or(1);
+    for shift in [0usize, 1, 3] {
+        for d in 0..m {
+            let t: Vec<V> = per_pos.iter().enumerate().map(|(i, a)| a[(d + i * shift) % a.len()].clone()).collect();
+            if !out.contains(&t) {
+                out.push(t);
+            }
+        }
+    }
+    out
+}
+
+fn native_jobs(tier: Tier, seed: u64) -> Vec<(String, Job)> {
+    let configs: Vec<(u8, u8)> = if tier.is_thorough() { vec![(4, 8), (1, 8), (2, 11), (3, 16)] } else { vec![(4, 8)] };
+    let mut jobs = vec![];
+    for (oi, op) in op_list(tier, seed).into_iter().enumerate() {
+        let mut wits: Vec<Wit<Vec<V>>> = vec![];
+        for ins in inputs_for(&op, tier, seed) {
+            let in_domain = native::reference(&op, &ins).is_some();
+            let label = native::show_ins(&ins);
+            if !wits.iter().any(|w| w.label == label) {
+                wits.push(Wit { label, w: ins, in_domain });
+            }
+        }
+        let wits = if tier.is_thorough() { wits } else { thin(wits, 6) };
+        let (cols, mbl) = configs[oi % configs.len()];
+        let nop = NOp { op, arch: arch(cols), max_bit_len: mbl };
+        let j = job(nop, wits, native::show_ins);
+        if !jobs.iter().any(|(k, _): &(String, Job)| *k == j.0) {
+            jobs.push(j);
+        }
+    }
+    jobs
+}
+
+// ---------------------------------------------------------------------------------------------
+// further families
+// ---------------------------------------------------------------------------------------------
+
+fn gw(label: impl Into<String>, in_domain: bool, f: impl FnOnce(&mut fam::GW)) -> Wit<fam::GW> {
+    let mut w = fam::GW::default();
+    f(&mut w);
+    Wit { label: label.into(), w, in_domain }
+}
+
+/// Pairs of labelled values steering equal / opposite / identity / generic branches.
+fn pairs<T: Clone + PartialEq>(a: &[fam::Lab<T>], all: bool) -> Vec<(String, T, T)> {
+    let mut v = vec![];
+    if all {
+        for x in a {
+            for y in a {
+                v.push((format!("{},{}", x.0, y.0), x.1.clone(), y.1.clone()));
+            }
+        }
+    } else {
+        // a = [id/0, G/1, -G/n-1, 2G/.., R/rnd]
+        for (i, j) in [(0usize, 0usize), (0, 1), (1, 0), (1, 1), (1, 2), (1, 3), (4, 1), (4, 4)] {
+            v.push((format!("{},{}", a[i].0, a[j].0), a[i].1.clone(), a[j].1.clone()));
+        }
+    }
+    v
+}
+
+fn family_jobs(tier: Tier, seed: u64) -> Vec<(&'static str, Vec<(String, Job)>)> {
+    use fam::{byte_patterns, Curve, GOp, HashKind, GW};
+    use group::Group;
+    let t = tier.is_thorough();
+    let al = fam::Alph { seed };
+    let mut out: Vec<(&'static str, Vec<(String, Job)>)> = vec![];
+    let push = |jobs: &mut Vec<(String, Job)>, op: GOp, wits: Vec<Wit<GW>>| {
+        assert!(!wits.is_empty(), "{op:?}");
+        jobs.push(job(op, wits, fam::show_gw));
+    };
+
+    // ---------------- Jubjub
+    {
+        let mut jobs = vec![];
+        let pts = al.jpts();
+        let scs = al.jscs();
+        let nats = al.nats();
+        let id = midnight_curves::JubjubSubgroup::identity();
+        let each_pt = |ok: &dyn Fn(&midnight_curves::JubjubSubgroup) -> bool| -> Vec<Wit<GW>> { pts.iter().map(|p| gw(p.0, ok(&p.1), |w| w.jpts = vec![p.1])).collect() };
+        push(&mut jobs, GOp::JAssign, each_pt(&|_| true));
+        push(&mut jobs, GOp::JAssignScalar, scs.iter().map(|s| gw(s.0, true, |w| w.jscs = vec![s.1])).collect());
+        push(&mut jobs, GOp::JDouble, each_pt(&|_| true));
+        push(&mut jobs, GOp::JNegate, each_pt(&|_| true));
+        push(&mut jobs, GOp::JIsZero, each_pt(&|_| true));
+        push(&mut jobs, GOp::JAssertNonZero, each_pt(&|p| *p != id));
+        for c in [0u64, 1, 8, 12345] {
+            push(&mut jobs, GOp::JMulByConst(c), each_pt(&|_| true));
+        }
+        let pp = pairs(&pts, t);
+        let two = |ok: &dyn Fn(&midnight_curves::JubjubSubgroup, &midnight_curves::JubjubSubgroup) -> bool| -> Vec<Wit<GW>> {
+            pp.iter().map(|(l, p, q)| gw(l.clone(), ok(p, q), |w| w.jpts = vec![*p, *q])).collect()
+        };
+        push(&mut jobs, GOp::JAdd, two(&|_, _| true));
+        push(&mut jobs, GOp::JIsEqual, two(&|_, _| true));
+        push(&mut jobs, GOp::JAssertEqual, two(&|p, q| p == q));
+        push(&mut jobs, GOp::JAssertNotEqual, two(&|p, q| p != q));
+        let mut sel = vec![];
+        for b in [false, true] {
+            for (l, p, q) in pp.iter().take(if t { 100 } else { 4 }) {
+                sel.push(gw(format!("{}?{l}", b as u8), true, |w| {
+                    w.jpts = vec![*p, *q];
+                    w.bits = vec![b]
+                }));
+            }
+        }
+        push(&mut jobs, GOp::JSelect, sel);
+        // msm
+        let mut m1 = vec![];
+        for s in &scs {
+            for p in &pts {
+                if t || s.0 == "rnd" || p.0 == "G" || (s.0 == "0" && p.0 == "id") {
+                    m1.push(gw(format!("{}*{}", s.0, p.0), true, |w| {
+                        w.jscs = vec![s.1];
+                        w.jpts = vec![p.1]
+                    }));
+                }
+            }
+        }
+        push(&mut jobs, GOp::JMsm(1), m1);
+        let mut m2 = vec![];
+        for (i, j, a, b) in [(0usize, 0usize, 0usize, 0usize), (1, 1, 1, 1), (1, 2, 1, 1), (4, 4, 4, 1), (2, 4, 0, 4), (4, 0, 1, 2), (1, 1, 1, 2)] {
+            m2.push(gw(format!("{}*{}+{}*{}", scs[i].0, pts[a].0, scs[j].0, pts[b].0), true, |w| {
+                w.jscs = vec![scs[i].1, scs[j].1];
+                w.jpts = vec![pts[a].1, pts[b].1]
+            }));
+        }
+        push(&mut jobs, GOp::JMsm(2), m2);
+        if t {
+            let mut m3 = vec![];
+            for sh in 0..5usize {
+                m3.push(gw(format!("shift{sh}"), true, |w| {
+                    w.jscs = (0..3).map(|i| scs[(i + sh) % 5].1).collect();
+                    w.jpts = (0..3).map(|i| pts[(2 * i + sh) % 5].1).collect()
+                }));
+            }
+            push(&mut jobs, GOp::JMsm(3), m3);
+        }
+        // from coordinates
+        let mut fc = vec![];
+        for p in &pts {
+            let (x, y) = fam::in_subgroup_coords(&p.1);
+            fc.push(gw(p.0, true, |w| w.nats = vec![x, y]));
+        }
+        fc.push(gw("(0,-1) order 2", false, |w| w.nats = vec![F::ZERO, -F::ONE]));
+        fc.push(gw("(1,1) off curve", false, |w| w.nats = vec![F::ONE, F::ONE]));
+        fc.push(gw("(0,0) off curve", false, |w| w.nats = vec![F::ZERO, F::ZERO]));
+        push(&mut jobs, GOp::JFromCoords, fc);
+        for n in [1usize, 32] {
+            let mut v = vec![];
+            for (l, b) in byte_patterns(n) {
+                for p in [&pts[1], &pts[0]] {
+                    v.push(gw(format!("{l}*{}", p.0), true, |w| {
+                        w.bytes = b.clone();
+                        w.jpts = vec![p.1]
+                    }));
+                }
+            }
+            push(&mut jobs, GOp::JMulBytes(n), v);
+        }
+        let mut v = vec![];
+        for x in &nats {
+            for p in [&pts[1], &pts[0], &pts[4]] {
+                v.push(gw(format!("{}*{}", x.0, p.0), fam::fr_repr_is_canonical_scalar(&x.1), |w| {
+                    w.nats = vec![x.1];
+                    w.jpts = vec![p.1]
+                }));
+            }
+        }
+        push(&mut jobs, GOp::JMulNative, v);
+        out.push(("jubjub", jobs));
+    }
+
+    // ---------------- Poseidon, hash to curve
+    {
+        let mut jobs = vec![];
+        let nats = al.nats();
+        let tuples = |n: usize| -> Vec<Wit<GW>> {
+            let mut v = vec![];
+            for x in &nats {
+                v.push(gw(format!("all {}", x.0), true, |w| w.nats = vec![x.1; n]));
+            }
+            for sh in 1..3usize {
+                v.push(gw(format!("rotation{sh}"), true, |w| w.nats = (0..n).map(|i| nats[(i + sh) % nats.len()].1).collect()));
+            }
+            v
+        };
+        for n in if t { (1..=9).collect::<Vec<usize>>() } else { vec![1, 2, 3, 4] } {
+            push(&mut jobs, GOp::Poseidon(n), tuples(n));
+        }
+        for n in if t { vec![1usize, 2, 3] } else { vec![1, 2] } {
+            push(&mut jobs, GOp::HashToCurve(n), tuples(n));
+        }
+        out.push(("poseidon", jobs));
+    }
+
+    // ---------------- vectors
+    {
+        let mut jobs = vec![];
+        let lens: Vec<usize> = (0..=17).collect();
+        let wit = |min_len: usize| -> Vec<Wit<GW>> {
+            let mut v: Vec<Wit<GW>> = lens
+                .iter()
+                .map(|n| gw(format!("len{n}"), *n <= 16 && *n >= min_len, |w| w.bytes = (0..*n).map(|i| (i * 37 + 1) as u8).collect()))
+                .collect();
+            v.push(gw("len16 zeros", true, |w| w.bytes = vec![0; 16]));
+            v.push(gw("len5 0xff", 5 >= min_len, |w| w.bytes = vec![0xff; 5]));
+            v
+        };
+        push(&mut jobs, GOp::VAssign, wit(0));
+        push(&mut jobs, GOp::VLimits, wit(0));
+        push(&mut jobs, GOp::VPaddingFlag, wit(0));
+        for n in [0usize, 1, 3, 4, 5, 16] {
+            push(&mut jobs, GOp::VTrim(n), wit(n));
+        }
+        out.push(("vector", jobs));
+    }
+
+    // ---------------- BigUint
+    {
+        let mut jobs = vec![];
+        for nb in if t { vec![1u32, 64, 120, 121, 256, 1024] } else { vec![64, 256] } {
+            let bs = al.bigs(nb);
+            let one: Vec<Wit<GW>> = bs.iter().map(|(l, b, ok)| gw(l.clone(), *ok, |w| w.bigs = vec![b.clone()])).collect();
+            push(&mut jobs, GOp::BAssign(nb), one.clone());
+            push(&mut jobs, GOp::BToLeBits(nb), one);
+            let mut two: Vec<(String, BigUint, BigUint, bool)> = vec![];
+            for (i, (la, a, oka)) in bs.iter().enumerate() {
+                for (j, (lb, b, okb)) in bs.iter().enumerate() {
+                    if t || i == j || (i + 1) % bs.len() == j || j == 0 || i == 0 {
+                        two.push((format!("{la},{lb}"), a.clone(), b.clone(), *oka && *okb));
+                    }
+                }
+            }
+            let mk = |ok: &dyn Fn(&BigUint, &BigUint) -> bool, bit: Option<bool>| -> Vec<Wit<GW>> {
+                two.iter()
+                    .map(|(l, a, b, inr)| {
+                        gw(l.clone(), *inr && ok(a, b), |w| {
+                            w.bigs = vec![a.clone(), b.clone()];
+                            w.bits = bit.into_iter().collect()
+                        })
+                    })
+                    .collect()
+            };
+            let zero = BigUint::from(0u32);
+            push(&mut jobs, GOp::BAdd(nb), mk(&|_, _| true, None));
+            push(&mut jobs, GOp::BSub(nb), mk(&|a, b| a >= b, None));
+            push(&mut jobs, GOp::BMul(nb), mk(&|_, _| true, None));
+            push(&mut jobs, GOp::BIsEqual(nb), mk(&|_, _| true, None));
+            push(&mut jobs, GOp::BLowerThan(nb), mk(&|_, _| true, None));
+            if nb <= 256 {
+                push(&mut jobs, GOp::BDivRem(nb), mk(&|_, b| *b != zero, None));
+                push(&mut jobs, GOp::BModExp(nb, 0), mk(&|_, b| *b != zero, None));
+                push(&mut jobs, GOp::BModExp(nb, 5), mk(&|_, b| *b != zero, None));
+            }
+            let mut sel = mk(&|_, _| true, Some(false));
+            sel.extend(mk(&|_, _| true, Some(true)).into_iter().map(|mut w| {
+                w.label = format!("1?{}", w.label);
+                w
+            }));
+            push(&mut jobs, GOp::BSelect(nb), sel);
+        }
+        for n in [1usize, 15, 16, 32] {
+            push(&mut jobs, GOp::BFromLeBytes(n), byte_patterns(n).into_iter().map(|(l, b)| gw(l, true, |w| w.bytes = b)).collect());
+        }
+        out.push(("biguint", jobs));
+    }
+
+    // ---------------- secp256k1 scalar field
+    {
+        use fam::GOp::*;
+        let mut jobs = vec![];
+        let scs = al.kscs();
+        let zero = midnight_curves::k256::Fq::ZERO;
+        let one: Vec<Wit<GW>> = scs.iter().map(|s| gw(s.0, true, |w| w.kscs = vec![s.1])).collect();
+        push(&mut jobs, KAssign, one.clone());
+        push(&mut jobs, KNeg, one.clone());
+        push(&mut jobs, KIsZero, one.clone());
+        push(&mut jobs, KToLeBits, one.clone());
+        push(&mut jobs, KToLeBytes, one.clone());
+        push(&mut jobs, KInv, scs.iter().map(|s| gw(s.0, s.1 != zero, |w| w.kscs = vec![s.1])).collect());
+        let mut pp: Vec<(String, midnight_curves::k256::Fq, midnight_curves::k256::Fq)> = vec![];
+        for (i, a) in scs.iter().enumerate() {
+            for (j, b) in scs.iter().enumerate() {
+                if t || i == j || (i + 1) % scs.len() == j || (i + 2) % scs.len() == j {
+                    pp.push((format!("{},{}", a.0, b.0), a.1, b.1));
+                }
+            }
+        }
+        let two = |ok: &dyn Fn(&midnight_curves::k256::Fq, &midnight_curves::k256::Fq) -> bool| -> Vec<Wit<GW>> {
+            pp.iter().map(|(l, a, b)| gw(l.clone(), ok(a, b), |w| w.kscs = vec![*a, *b])).collect()
+        };
+        for op in [KAdd, KSub, KMul, KIsEqual, KChain] {
+            push(&mut jobs, op, two(&|_, _| true));
+        }
+        push(&mut jobs, KDiv, two(&|_, b| *b != zero));
+        push(&mut jobs, KAssertEqual, two(&|a, b| a == b));
+        push(&mut jobs, KAssertNotEqual, two(&|a, b| a != b));
+        let mut sel = vec![];
+        for b in [false, true] {
+            for (l, x, y) in pp.iter().take(if t { 100 } else { 4 }) {
+                sel.push(gw(format!("{}?{l}", b as u8), true, |w| {
+                    w.kscs = vec![*x, *y];
+                    w.bits = vec![b]
+                }));
+            }
+        }
+        push(&mut jobs, KSelect, sel);
+        for n in [1usize, 32] {
+            push(&mut jobs, KFromLeBytes(n), byte_patterns(n).into_iter().map(|(l, b)| gw(l, true, |w| w.bytes = b)).collect());
+        }
+        out.push(("secp256k1-scalar", jobs));
+    }
+
+    // ---------------- parsing
+    {
+        let mut jobs = vec![];
+        for (n, len) in [(40usize, 4usize), (8, 8), (33, 1)] {
+            let mut v = vec![];
+            let max = (n - len) as u64;
+            let mut idxs = vec![0u64, 1, max / 2, 30.min(max), 31.min(max), max];
+            idxs.sort();
+            idxs.dedup();
+            for i in idxs {
+                for (l, b) in byte_patterns(n).into_iter().take(if t { 4 } else { 2 }).skip(1) {
+                    v.push(gw(format!("idx{i} {l}"), true, |w| {
+                        w.nats = vec![F::from(i)];
+                        w.bytes = b
+                    }));
+                }
+            }
+            for (l, x) in [("idx max+1", F::from(max + 1)), ("idx p-1", -F::ONE), ("idx 2^64", F::from(2).pow_vartime([64u64]))] {
+                v.push(gw(l, false, |w| {
+                    w.nats = vec![x];
+                    w.bytes = (0..n).map(|i| i as u8).collect()
+                }));
+            }
+            push(&mut jobs, GOp::FetchBytes(n, len), v);
+        }
+        let b64 = |items: &[(&str, bool)]| -> Vec<Wit<GW>> { items.iter().map(|(s, ok)| gw(format!("{s:?}"), *ok, |w| w.bytes = s.as_bytes().to_vec())).collect() };
+        push(&mut jobs, GOp::Base64(4, true), b64(&[("QUJD", true), ("QUI=", true), ("QQ==", true), ("AAAA", true), ("////", true), ("!!!!", false), ("=AAA", false), ("\0\0\0\0", false)]));
+        push(&mut jobs, GOp::Base64(8, true), b64(&[("QUJDREVG", true), ("QUJDRA==", true), ("zzzzzzz=", true), ("QUJD====", false)]));
+        push(&mut jobs, GOp::Base64(2, false), b64(&[("QQ", true), ("AA", true), ("!!", false)]));
+        push(&mut jobs, GOp::Base64(3, false), b64(&[("QUI", true), ("AAA", true), ("==A", false)]));
+        if t {
+            // the example credential of the repository (JWT payload, base64url without padding)
+            if let Ok(txt) = std::fs::read_to_string("/repo/zk_stdlib/examples/identity/credentials/2k-credential") {
+                if let Some(json) = txt.trim().split('.').nth(1).and_then(|p| base64::decode_config(p, base64::URL_SAFE_NO_PAD).ok()) {
+                    let n = json.len();
+                    let subst = |from: &str, to: &str| -> Vec<u8> { String::from_utf8_lossy(&json).replace(from, to).into_bytes() };
+                    let mut v = vec![gw("example credential", true, |w| w.bytes = json.clone())];
+                    for (l, from, to, ok) in [
+                        ("givenName Alice->Bobby", "Alice", "Bobby", true),
+                        ("nationalId 12345->00000", "\"12345\"", "\"00000\"", true),
+                        ("familyName with escapes", "Wonderland", "W\\n\\t\\\\and", true),
+                        ("nbf digits -> spaces+digit", "\"nbf\":1740482175", "\"nbf\":         1", true),
+                        ("opening brace removed", "{\"iss\"", " \"iss\"", false),
+                        ("field order changed", "\"iss\"", "\"isx\"", false),
+                    ] {
+                        let b = subst(from, to);
+                        if b.len() == n && b != json {
+                            v.push(gw(l, ok, |w| w.bytes = b));
+                        }
+                    }
+                    v.push(gw("all zero bytes", false, |w| w.bytes = vec![0; n]));
+                    push(&mut jobs, GOp::JwtParse(n), v);
+                }
+            }
+        }
+        out.push(("parsing", jobs));
+    }
+
+    // ---------------- byte hashes
+    {
+        let mut jobs = vec![];
+        let mut lens: Vec<(HashKind, Vec<usize>)> = vec![(HashKind::Sha256, if t { vec![0, 1, 55, 56, 64, 119, 120] } else { vec![0, 55, 56, 64] })];
+        if t {
+            lens.push((HashKind::Sha512, vec![0, 1, 111, 112, 128]));
+            lens.push((HashKind::Sha3, vec![0, 1, 135, 136]));
+            lens.push((HashKind::Keccak, vec![0, 135, 136]));
+            lens.push((HashKind::Blake2b256, vec![0, 1, 128, 129]));
+        }
+        for (k, ls) in lens {
+            for n in ls {
+                push(&mut jobs, GOp::Hash(k, n), byte_patterns(n).into_iter().map(|(l, b)| gw(l, true, |w| w.bytes = b)).collect());
+            }
+        }
+        out.push(("hash", jobs));
+    }
+
+    // ---------------- assign_as_public_input of every exposable type
+    {
+        use fam::PiKind;
+        let mut jobs = vec![];
+        push(&mut jobs, GOp::AsPi(PiKind::Native), al.nats().iter().map(|x| gw(x.0, true, |w| w.nats = vec![x.1])).collect());
+        push(&mut jobs, GOp::AsPi(PiKind::Bit), [false, true].iter().map(|b| gw(format!("{b}"), true, |w| w.bits = vec![*b])).collect());
+        push(&mut jobs, GOp::AsPi(PiKind::Byte), [0u8, 1, 0x80, 0xff].iter().map(|b| gw(format!("{b}"), true, |w| w.bytes = vec![*b])).collect());
+        push(&mut jobs, GOp::AsPi(PiKind::JPoint), al.jpts().iter().map(|x| gw(x.0, true, |w| w.jpts = vec![x.1])).collect());
+        push(&mut jobs, GOp::AsPi(PiKind::JScalar), al.jscs().iter().map(|x| gw(x.0, true, |w| w.jscs = vec![x.1])).collect());
+        push(&mut jobs, GOp::AsPi(PiKind::KScalar), al.kscs().iter().map(|x| gw(x.0, true, |w| w.kscs = vec![x.1])).collect());
+        for nb in [64u32, 256] {
+            push(&mut jobs, GOp::AsPi(PiKind::Big(nb)), al.bigs(nb).iter().map(|(l, b, ok)| gw(l.clone(), *ok, |w| w.bigs = vec![b.clone()])).collect());
+        }
+        if t {
+            push(&mut jobs, GOp::AsPi(PiKind::KPoint), al.kpts().iter().map(|x| gw(x.0, true, |w| w.kpts = vec![x.1])).collect());
+            push(&mut jobs, GOp::AsPi(PiKind::BPoint), al.bpts().iter().map(|x| gw(x.0, true, |w| w.bpts = vec![x.1])).collect());
+        }
+        out.push(("public-input", jobs));
+    }
+
+    // ---------------- variable-length hash gadgets (built from scratch): every vector length
+    {
+        let mut jobs: Vec<(String, Job)> = vec![];
+        fn show_bytes(w: &Vec<u8>) -> String {
+            format!("{} bytes: {}", w.len(), vcore::hex(w))
+        }
+        fn show_nats(w: &Vec<F>) -> String {
+            format!("{} elements: [{}]", w.len(), w.iter().map(hex).collect::<Vec<_>>().join(","))
+        }
+        fn sha_wits(lens: &[usize], max: usize) -> Vec<Wit<Vec<u8>>> {
+            let mut v = vec![];
+            for n in lens {
+                v.push(Wit { label: format!("len{n}"), w: (0..*n).map(|i| (i * 37 + 1) as u8).collect(), in_domain: *n <= max });
+            }
+            v
+        }
+        let pos_wits = |max: usize| -> Vec<Wit<Vec<F>>> {
+            let nats = al.nats();
+            let mut v = vec![];
+            for n in 0..=max + 1 {
+                v.push(Wit { label: format!("len{n}"), w: (0..n).map(|i| nats[(i + 1) % nats.len()].1).collect(), in_domain: n <= max });
+            }
+            v.push(Wit { label: format!("len{max} zeros"), w: vec![F::ZERO; max], in_domain: true });
+            v
+        };
+        jobs.push(job(scratch::VarPoseidon::<2>, pos_wits(2), show_nats));
+        jobs.push(job(scratch::VarPoseidon::<8>, pos_wits(8), show_nats));
+        if t {
+            jobs.push(job(scratch::VarPoseidon::<16>, pos_wits(16), show_nats));
+        }
+        if t {
+            let all: Vec<usize> = (0..=65).collect();
+            for (ci, ch) in all.chunks(11).enumerate() {
+                jobs.push(job_keyed(format!("VarLenSha256<max 64>#{ci}"), scratch::VarSha::<64>, sha_wits(ch, 64), show_bytes));
+            }
+            let all: Vec<usize> = (0..=129).collect();
+            for (ci, ch) in all.chunks(10).enumerate() {
+                jobs.push(job_keyed(format!("VarLenSha256<max 128>#{ci}"), scratch::VarSha::<128>, sha_wits(ch, 128), show_bytes));
+            }
+        } else {
+            jobs.push(job(scratch::VarSha::<64>, sha_wits(&[0, 1, 55, 56, 63, 64, 65], 64), show_bytes));
+        }
+        out.push(("varlen-hash", jobs));
+    }
+
+    // ---------------- foreign ECC
+    if t {
+        let mut jobs = vec![];
+        macro_rules! curve_jobs {
+            ($c:expr, $pts:expr, $field:ident, $scs:expr, $scfield:ident, $idty:expr) => {{
+                let pts = $pts;
+                let each: Vec<Wit<GW>> = pts.iter().map(|p| gw(p.0, true, |w| w.$field = vec![p.1])).collect();
+                push(&mut jobs, GOp::FAssign($c), each.clone());
+                push(&mut jobs, GOp::FDouble($c), each.clone());
+                push(&mut jobs, GOp::FNegate($c), each.clone());
+                for k in [0u64, 1, 5] {
+                    push(&mut jobs, GOp::FMulByConst($c, k), each.clone());
+                }
+                let pp = pairs(&pts, false);
+                let two: Vec<Wit<GW>> = pp.iter().map(|(l, p, q)| gw(l.clone(), true, |w| w.$field = vec![*p, *q])).collect();
+                push(&mut jobs, GOp::FAdd($c), two.clone());
+                push(&mut jobs, GOp::FIsEqual($c), two);
+                let mut sel = vec![];
+                for b in [false, true] {
+                    for (l, p, q) in pp.iter().take(4) {
+                        sel.push(gw(format!("{}?{l}", b as u8), true, |w| {
+                            w.$field = vec![*p, *q];
+                            w.bits = vec![b]
+                        }));
+                    }
+                }
+                push(&mut jobs, GOp::FSelect($c), sel);
+                let scs = $scs;
+                let mut m = vec![];
+                for (si, pi) in [(0usize, 1usize), (1, 1), (2, 1), (4, 4), (4, 0), (0, 0), (3, 2)] {
+                    m.push(gw(format!("{}*{}", scs[si].0, pts[pi].0), true, |w| {
+                        w.$scfield = vec![scs[si].1];
+                        w.$field = vec![pts[pi].1]
+                    }));
+                }
+                push(&mut jobs, GOp::FMul($c), m);
+                // k out of n: pts = [id, G, -G, 2G, R]
+                let mut kn = vec![];
+                for (tl, tab) in [("G,-G,R", [1usize, 2, 4]), ("R,2G,G", [4, 3, 1])] {
+                    for sel in [[0u8, 1], [0, 2], [1, 2]] {
+                        kn.push(gw(format!("table {tl} select {sel:?}"), true, |w| {
+                            w.$field = tab.iter().map(|i| pts[*i].1).collect();
+                            w.bytes = sel.to_vec()
+                        }));
+                    }
+                }
+                kn.push(gw("table G,-G,R select [1, 0] (out of order)", false, |w| {
+                    w.$field = [1usize, 2, 4].iter().map(|i| pts[*i].1).collect();
+                    w.bytes = vec![1, 0]
+                }));
+                kn.push(gw("table G,id,R select [0, 2] (identity in table)", false, |w| {
+                    w.$field = [1usize, 0, 4].iter().map(|i| pts[*i].1).collect();
+                    w.bytes = vec![0, 2]
+                }));
+                // a table with a repeated point, selecting both copies (in order of occurrence)
+                // (documented precondition — selected points in order of occurrence — holds; the constraint
+                // system is satisfiable with indices 0 and 1)
+                kn.push(gw("table G,G,R select [0, 1] (duplicate entries)", true, |w| {
+                    w.$field = [1usize, 1, 4].iter().map(|i| pts[*i].1).collect();
+                    w.bytes = vec![0, 1]
+                }));
+                kn.push(gw("table G,G,R select [1, 2] (duplicate entries)", true, |w| {
+                    w.$field = [1usize, 1, 4].iter().map(|i| pts[*i].1).collect();
+                    w.bytes = vec![1, 2]
+                }));
+                push(&mut jobs, GOp::FKofN($c, 3, 2), kn);
+            }};
+        }
+        curve_jobs!(Curve::Secp, al.kpts(), kpts, al.kscs(), kscs, K256::identity());
+        curve_jobs!(Curve::Bls, al.bpts(), bpts, al.nats(), nats, G1Projective::identity());
+        out.push(("foreign-ecc", jobs));
+    }
+    out
+}
+
+// ---------------------------------------------------------------------------------------------
+
+fn selftest(cx: &mut Ctx, cfg: &Cfg) {
+    use selftest::Bad;
+    let wits: Vec<Wit<(F, F)>> = [(0u64, 0u64), (0, 3), (5, 5), (7, 2)]
+        .into_iter()
+        .map(|(a, b)| Wit { label: format!("{a},{b}"), w: (F::from(a), F::from(b)), in_domain: true })
+        .collect();
+    let show = |w: &(F, F)| format!("{},{}", hex(&w.0), hex(&w.1));
+    for (bad, expect) in [
+        (Bad::FixedFromWitness, vec!["vk-depends-on-witness", "fixed-table-depends-on-witness"]),
+        (Bad::GateIfNonZero, vec!["vk-depends-on-witness", "selectors-depend-on-witness"]),
+        (Bad::CopyIfEqual, vec!["vk-depends-on-witness", "copy-constraints-depend-on-witness"]),
+        (Bad::ExtraPublicInput, vec!["public-input-count-depends-on-witness"]),
+        (Bad::Control, vec![]),
+    ] {
+        let mut out = CaseOut::batch();
+        let r = vcore::in_pool(1, || {
+            let mut o = CaseOut::batch();
+            let rep = check_op(&bad, &wits, &show, cfg, &mut o);
+            (o, rep.compared, rep.proof_done)
+        });
+        let (o, compared, proof_done) = r;
+        let keys: Vec<String> = o.viols.iter().map(|v| v.finding_key.clone()).collect();
+        for e in &expect {
+            cx.require(
+                keys.iter().any(|k| *k == format!("{}:{e}", OpDef::name(&bad))),
+                &format!("the oracle must flag the deliberately witness-dependent operation {} with {e} (got {keys:?})", OpDef::name(&bad)),
+            );
+        }
+        if expect.is_empty() {
+            cx.require(keys.is_empty() && compared == wits.len() as u64 && proof_done, &format!("the honest control operation must pass cleanly (got {keys:?})"));
+            cx.require(o.classes.iter().any(|(c, _)| c == "proof-under-unknown-witness-key:accepted"), "the control's real proof must verify");
+        }
+        out.evals = o.evals;
+        out.distinct_nontrivial = 0;
+        out.classes = o.classes.iter().map(|(c, n)| (format!("{}:{c}", if expect.is_empty() { "control" } else { "planted" }), *n)).collect();
+        out.counter("selftest_flags", keys.len() as u64);
+        out.sample = Some(json!({"operation": OpDef::name(&bad), "flagged_as": keys}));
+        cx.record("selftest", &OpDef::name(&bad), out);
+    }
+}
+
+fn main() {
+    let mut cx = Ctx::from_args("C09", Level::Exploration);
+    cx.worker_rayon_threads = Some(1);
+    cx.set_rule(
+        "operation registry (C04's native registry: arithmetic, linear combinations, inversion/division, zero/equality tests \
+         and assertions, boolean logic, bitwise ops, canonicity, bit/byte/chunk (de)composition, sign, range checks, comparison, \
+         select/swap, conversions, div_rem/rem; plus further operation families, see `families`) x witness set W = {unknown} u \
+         {every input tuple of the operation's boundary alphabet, in and out of domain} (quick: <= 6 tuples per native operation, \
+         spread over the alphabet). One case = one (operation, static parameters, configuration): the verifying key of the circuit \
+         carrying the unknown witness is the reference; per concrete witness one evaluation compares (1) keygen_vk_with_k bytes and \
+         transcript_repr, (2) MockProver fixed / selectors / permutation tables and number of constrained public inputs, (3) the \
+         circuit model (k, rows, table rows). Per operation one real proof with a satisfying witness is verified under the key made by \
+         setup_vk (no witness).",
+    );
+    cx.assume("the witness enters a relation only through Relation::circuit's `witness` argument (the harness relations never read the `instance` argument; exposed values are bound with constrain_as_public_input)");
+    cx.assume("keygen is compared at the circuit's own minimal k with a seeded SRS; a key difference that only shows at larger k is not explored");
+    let seed = cx.seed;
+    let tier = cx.tier;
+    let cfg = Cfg { seed, proof_max_k: tier.pick(11, 14) };
+
+    selftest(&mut cx, &cfg);
+
+    // development aid: C09_FAMILY=<name> runs a single family (the evidence then says so)
+    let only = std::env::var("C09_FAMILY").ok();
+    if let Some(o) = &only {
+        cx.cap(format!("C09_FAMILY={o}: only this family was run"));
+    }
+    let njobs = native_jobs(tier, seed);
+    if only.is_none() || only.as_deref() == Some("native") {
+        cx.run_cases("native", &njobs, |j| j(&cfg));
+    }
+
+    let quick_families = ["jubjub", "poseidon", "vector", "public-input", "varlen-hash", "biguint", "secp256k1-scalar", "parsing", "hash"];
+    let mut fams = vec![];
+    for (name, jobs) in family_jobs(tier, seed) {
+        if let Some(o) = &only {
+            if o != name {
+                continue;
+            }
+        } else if !tier.is_thorough() && !quick_families.contains(&name) {
+            continue;
+        }
+        fams.push(json!({"family": name, "operations": jobs.len()}));
+        cx.run_cases(name, &jobs, |j| j(&cfg));
+    }
+    cx.extra("families", json!(fams));
+
+    let compared = cx.counter_value("witnesses_compared");
+    let proofs = cx.counter_value("real_proofs");
+    cx.require(compared > 500, "at least 500 witness comparisons");
+    cx.require(proofs > 100, "at least 100 real proofs under the unknown-witness key");
+    cx.require(cx.class_count("native:ood:keygen-panic") + cx.class_count("native:ood:mock-run-failed") + cx.class_count("native:mock:unsat") > 20, "out-of-domain witnesses must be part of W");
+    cx.finish()
+}
